@@ -56,6 +56,12 @@ def r1_traversal(ctx):
     if tf[0] == 'atom':         # `while stack:` / `while len(stack) > 0:`
         stack = tf[1][len('nonempty('):-1] if tf[1].startswith('nonempty(') else tf[1]
     init = [a for a in inits if F.is_name(a.targets[0], stack)]
+    if not any(isinstance(n_, ast.Call) and isinstance(n_.func, ast.Attribute) and n_.func.attr in ('pop', 'popleft') and src(n_.func.value) == stack
+               and isinstance(p_, (ast.Assign, ast.Expr)) for p_ in ast.walk(w) for n_ in ([p_.value] if isinstance(p_, (ast.Assign, ast.Expr)) else [])):
+        raise AnalysisError(f'{f.loc}: the traversal loop of dfs_iterative takes no node off its work list by pop (another scheme: a stack of '
+                            f'iterators, recursion): not followed')
+    if any(isinstance(n_, ast.Call) and F.is_name(n_.func, 'next') and n_.args and src(n_.args[0]).startswith(f'{stack}[') for n_ in ast.walk(w)):
+        raise AnalysisError(f'{f.loc}: the work list of dfs_iterative holds iterators (nodes are taken with next()): another scheme, not followed')
     ctx.check(bool(init) and src(init[0].value) in ('[self]', 'deque([self])'), 'R1', f.loc, f.qualname, 'traversal-starts-at-node',
               'the work list starts with the node itself')
     sps = symex.sym_paths(w.body)
@@ -65,6 +71,9 @@ def r1_traversal(ctx):
         evs = [e for e in sp.events if e.kind in ('assign', 'expr', 'iter')]
         pops = [e for e in sp.events if e.kind == 'assign' and isinstance(e.expr, ast.Call) and isinstance(e.expr.func, ast.Attribute)
                 and src(e.expr.func.value) == stack and e.expr.func.attr in ('pop', 'popleft')]
+        if not pops and not any(isinstance(e.expr, ast.Call) and isinstance(e.expr.func, ast.Attribute) and e.expr.func.attr in ('pop', 'popleft')
+                                for e in sp.events if isinstance(e.expr, ast.AST)):
+            raise AnalysisError(f'{at}: the traversal loop of dfs_iterative takes no node off a work list (another scheme: iterators, recursion): not followed')
         if len(pops) != 1:
             ctx.violation('R1', at, f.qualname, 'one-pop-per-iteration', f'{len(pops)} pops per iteration')
             continue
